@@ -80,7 +80,7 @@ def rule_temporal(ctx):
     M, IV = [norm(e) for e in tcst.targets[0].elts]
     # the call whose arguments are built from the mask
     stop = {n.id for st0 in flow.stmts if isinstance(st0, ast.Assign) and isinstance(st0.value, (ast.List, ast.Tuple))
-            for n in st0.targets if isinstance(n, ast.Name)}
+            for n in st0.targets if isinstance(n, ast.Name)} | {M, IV}
 
     def rargs(call):
         out = {}
@@ -221,7 +221,7 @@ def rule_window(ctx):
         return sum(c * a[k] for k, c in form.items())
     bad = None
     n = 0
-    rng = range(4)
+    rng = range(5) if ctx.tier == "thorough" else range(4)
     for S, E, M, pmin, t1, pmax, smin, t2, smax in itertools.product(rng, rng, range(3), rng, rng, rng, rng, rng, rng):
         if not (S <= E and pmin <= t1 <= pmax and smin <= t2 <= smax):
             continue
